@@ -130,8 +130,9 @@ _replay_built = {}
 
 def build_replay(profile, compiler, log_dir):
     """Build the native replay runner against the working tree (dev or release)."""
+    import common
     key = (profile, compiler)
-    with _replay_lock:
+    with _replay_lock, common.global_lock("replay-build"):
         if key in _replay_built:
             return _replay_built[key]
         refresh_lock()
@@ -147,7 +148,7 @@ def build_replay(profile, compiler, log_dir):
             raise Inconclusive(f"native replay runner does not build ({profile}): " + "\n".join(out.splitlines()[-30:]))
         # keep a private copy so that a later build with other features does not swap the binary under us
         src = os.path.join(tdir, "release" if profile == "release" else "debug", "replay")
-        dst = os.path.join(tdir, f"replay-{profile}-{int(compiler)}")
+        dst = os.path.join(tdir, f"replay-{profile}-{int(compiler)}-{os.getpid()}")
         shutil.copyfile(src, dst)
         os.chmod(dst, 0o755)
         _replay_built[key] = dst
@@ -174,6 +175,19 @@ def native_replay(h, vals, log_dir):
         else:
             res[profile] = ("error", f"rc={rc} {line}")
     return res, hexs
+
+
+def witness_search(h, log_dir, iters=3000000):
+    """Kani established a failure but could not print values (a limitation for some check kinds): look for a concrete input
+    of the harness natively. Only ever used after a FAILED verdict; whatever it finds goes through the normal native replay."""
+    for profile in ("dev", "release"):
+        binp = build_replay(profile, h.needs_compiler, log_dir)
+        rc, out, _, to = run([binp, "search", h.name, "1", str(iters)], timeout=600)
+        m = re.search(r"FOUND harness=\S+ after=\d+ valid=\d+ draws=(\S*) failure=", out)
+        if m:
+            hexs = m.group(1)
+            return [bytes.fromhex(x) for x in hexs.split(",")] if hexs else []
+    return None
 
 
 def run_harness(h, tier, slot, log_dir):
@@ -226,10 +240,14 @@ def run_harness(h, tier, slot, log_dir):
                               timeout=h.timeout[tier], mem_gb=h.mem[tier], log=log + ".playback")
     pbs = [pb for pb in parse_playbacks(out2) if pb[0] != "cover"]
     r["wall_s"] = round(dt + dt2, 1)
-    if not pbs:
-        r.update(status="inconclusive", reason="Kani reported a failure but produced no concrete counterexample to replay")
-        return r
     tried = []
+    if not pbs:
+        found = witness_search(h, log_dir)
+        if found is None:
+            r.update(status="inconclusive", reason="Kani reported a failure (" + "; ".join(f["description"] for f in real_failures[:2]) +
+                     ") but printed no concrete values, and the native witness search found no reproducing input")
+            return r
+        pbs = [("solver verdict + native witness search", real_failures[0]["description"], found)]
     for kind, desc, vals in pbs[:6]:
         rep, hexs = native_replay(h, vals, log_dir)
         tried.append({"check": f"{kind}: {desc}", "draws": hexs, "native": rep})
@@ -251,6 +269,12 @@ def run_harness(h, tier, slot, log_dir):
 
 
 def run_all(harnesses, tier, nslots, log_dir, seed=0):
+    import common
+    with common.global_lock("kani"):
+        return _run_all(harnesses, tier, nslots, log_dir, seed)
+
+
+def _run_all(harnesses, tier, nslots, log_dir, seed=0):
     os.makedirs(log_dir, exist_ok=True)
     nslots = max(1, min(nslots, len(harnesses)))
     build_s = warm_up(nslots, log_dir)
